@@ -73,7 +73,9 @@ def c18_special(pid, prop, tier, seed, b):
             o['fr'] = str(rng.choice([0, 1, 7, -3, 1001]))
         use_json = rng.random() < 0.6
         via_stdin = rng.random() < 0.4 or any(p.startswith('-') for p in pats)
-        invocations.append(dict(pats=pats, o=o, json=use_json, stdin=via_stdin, id=i))
+        # stdin framing: LF-terminated, last line unterminated, CRLF, blank lines in between
+        framing = rng.choice(['lf', 'lf', 'nofinal', 'crlf', 'blank']) if via_stdin else 'args'
+        invocations.append(dict(pats=pats, o=o, json=use_json, stdin=via_stdin, id=i, framing=framing))
     # 1. run the binary (twice each: the content must not depend on the order in which the parses finish)
     def run_bin(inv):
         o = inv['o']
@@ -95,7 +97,9 @@ def c18_special(pid, prop, tier, seed, b):
             args.append('-j')
         stdin_data = b''
         if inv['stdin']:
-            stdin_data = ('\n'.join(inv['pats']) + '\n').encode('latin-1')
+            fr = inv['framing']
+            sep = {'crlf': '\r\n', 'blank': '\n\n'}.get(fr, '\n')
+            stdin_data = (sep.join(inv['pats']) + ('' if fr == 'nofinal' else sep)).encode('latin-1')
         else:
             args += [p.encode('latin-1') for p in inv['pats']]
         try:
@@ -193,7 +197,7 @@ def c18_special(pid, prop, tier, seed, b):
         runs2 = list(ex.map(run_bin, invocations))
     for inv, (rc1, out1), (rc2, out2) in zip(invocations, runs1, runs2):
         text = 'seqinfo %s json=%s stdin=%s patterns=%r' % ({k: v for k, v in inv['o'].items() if v not in ('', 0, 'N')}, inv['json'], inv['stdin'], inv['pats'])
-        c = dict(line='seqinfo#%d' % inv['id'], text=text, shape=('json' if inv['json'] else 'plain') + (':stdin' if inv['stdin'] else ':args'),
+        c = dict(line='seqinfo#%d' % inv['id'], text=text, shape=('json' if inv['json'] else 'plain') + (':stdin-' + inv['framing'] if inv['stdin'] else ':args'),
                  meta=inv, nontrivial=len(set(inv['pats'])) > 1, args=inv['pats'], op='seqinfo')
         cases.append(c)
         f, d = [], []
@@ -253,6 +257,42 @@ def gen_tree(rng, mode='plain'):
            nested   - links to directories that hold links to directories with sub-directories (K5 probe)
            aliased  - several links per target, links to ancestors (termination only)"""
     dirs, files, links = ['.'], {}, {}
+    if mode == 'chain':
+        # the root given to seqls is r/; a second tree ext/ beside it is reached only through
+        # relative links (r/l -> ../ext/d, ext/d/up -> ../e): chains of links whose texts contain
+        # "..", with the same directory names on both sides.  Every real directory is the target
+        # of at most one link and nothing is reachable by two link paths, so the listing is exact.
+        names = ['e', 'd', 's', 't']
+        def seqfiles(tag):
+            return ['%s.%04d.exr' % (tag, i) for i in range(1, rng.randint(2, 4))]
+        for side in ('r', 'ext'):
+            dirs.append(side)
+            files[side] = ['top_%s.txt' % side]
+            for nm in names:
+                if rng.random() < 0.8:
+                    dirs.append(side + '/' + nm)
+                    files[side + '/' + nm] = seqfiles(side[0] + nm)
+                    if rng.random() < 0.6:
+                        dirs.append(side + '/' + nm + '/sub')
+                        files[side + '/' + nm + '/sub'] = seqfiles(side[0] + nm + 's')
+        rdirs = [d for d in dirs if d.startswith('r/') and d.count('/') == 1]
+        edirs = [d for d in dirs if d.startswith('ext/') and d.count('/') == 1]
+        rng.shuffle(edirs)
+        targeted = set()
+        # a link between siblings inside r (the target holds no link)
+        if rdirs and rng.random() < 0.8:
+            t = rng.choice(rdirs)
+            links['r/m'] = t
+            targeted.add(t)
+        # chains through ext: r/l0 -> ext/a, ext/a/up -> ext/b, ext/b/up -> ext/c ...
+        k = 0
+        while len(edirs) >= 1 and k < 2:
+            chain = [edirs.pop() for _ in range(min(len(edirs), rng.randint(1, 3)))]
+            links['r/l%d' % k] = chain[0]
+            for a, b in zip(chain, chain[1:]):
+                links[a + '/up'] = b
+            k += 1
+        return dirs, files, links
     if mode == 'narrow':
         # a spine: every level holds one leaf directory and one directory that goes deeper, so the
         # last outstanding unit of work of the walk is a directory that still has a sub-directory
@@ -338,14 +378,17 @@ def gen_tree(rng, mode='plain'):
     return dirs, files, links
 
 
-def build_tree(root, dirs, files, links):
+def build_tree(root, dirs, files, links, rel_links=False):
     for d in dirs:
         os.makedirs(os.path.join(root, d), exist_ok=True)
     for d, fs in files.items():
         for f in fs:
             open(os.path.join(root, d, f), 'w').close()
     for p, tgt in links.items():
-        os.symlink(os.path.abspath(os.path.join(root, tgt)), os.path.join(root, p))
+        if rel_links:
+            os.symlink(os.path.relpath(os.path.join(root, tgt), os.path.dirname(os.path.join(root, p))), os.path.join(root, p))
+        else:
+            os.symlink(os.path.abspath(os.path.join(root, tgt)), os.path.join(root, p))
 
 
 def hidden_name(p):
@@ -424,17 +467,20 @@ def c17_special(pid, prop, tier, seed, b):
     cases, failures, disagreements, impl_lines = [], [], [], []
     runs = []
     for t in range(ntrees):
-        mode = ['plain', 'narrow', 'leaflinks', 'nested', 'aliased', 'plain'][t % 6]
+        mode = ['plain', 'narrow', 'leaflinks', 'nested', 'aliased', 'plain', 'chain'][t % 7]
         aliased = mode in ('aliased', 'nested')
         dirs, files, links = gen_tree(rng, mode)
         troot = '%s/t%d' % (root, t)
         os.makedirs(troot)
-        build_tree(troot, dirs, files, links)
+        build_tree(troot, dirs, files, links, rel_links=(mode == 'chain' or (mode != 'nested' and rng.random() < 0.5)))
         for v in range(3 if tier == 'quick' else 6):
             flags = ''.join(f for f in 'ras1f' if rng.random() < (0.7 if f == 'r' else 0.35))
             if mode == 'narrow' and 'r' not in flags:
                 flags = 'r' + flags
             nargs = rng.choice([0, 1, 1, 2, 3]) if mode != 'narrow' else rng.choice([0, 0, 1])
+            if mode == 'chain':
+                flags = 'r' + flags.replace('r', '')
+                nargs = 0
             args = []
             for _ in range(nargs):
                 k = rng.random()
@@ -449,6 +495,8 @@ def c17_special(pid, prop, tier, seed, b):
                     args.append((d + '/' if d != '.' else '') + rng.choice(['foo.#.exr', 'bar_@.jpg', 'img.@@@@.tar.gz', 'nope.#.exr', 'foo.%04d.exr']))
                 else:
                     args.append(rng.choice(['missing/foo.#.exr', '.']))
+            if mode == 'chain':
+                args = ['r'] + ([rng.choice([d for d in dirs if d.startswith('r/')] or ['r'])] if rng.random() < 0.3 else [])
             cwd_rel = '.'
             subs = [d for d in dirs if d != '.' and '/' not in d and not d.startswith('.') and d not in links.values()]
             if v == 0 and subs and mode == 'plain':
